@@ -9,11 +9,14 @@ import (
 	"os"
 	"sort"
 	"strings"
+	"time"
 
 	"github.com/diskfs/go-diskfs/filesystem"
+	"github.com/diskfs/go-diskfs/filesystem/ext4"
 	"github.com/diskfs/go-diskfs/filesystem/fat12"
 	"github.com/diskfs/go-diskfs/filesystem/fat16"
 	"github.com/diskfs/go-diskfs/filesystem/fat32"
+	"github.com/google/uuid"
 
 	"verifmc/explore"
 	"verifmc/memdev"
@@ -28,10 +31,51 @@ type fatCfg struct {
 	Start        int64 `json:"start"`
 	Blocksize    int64 `json:"blocksize"`
 	Reproducible bool  `json:"reproducible"`
+	// ext4 (Type == 4)
+	E4SectorsPerBlock uint8  `json:"e4_sectors_per_block,omitempty"`
+	E4NoCsum          bool   `json:"e4_no_csum,omitempty"`
+	E4Journal         bool   `json:"e4_journal,omitempty"`
+	E4Feat            string `json:"e4_feat,omitempty"` // feature-set tag used by C05's Create matrix
 }
 
 func (c fatCfg) String() string {
+	if c.Type == 4 {
+		t := fmt.Sprintf("ext4/%d@%d/bs%d", c.Size, c.Start, int(c.E4SectorsPerBlock)*512)
+		if c.E4NoCsum {
+			t += "/nocsum"
+		}
+		if c.E4Journal {
+			t += "/journal"
+		}
+		if c.E4Feat != "" {
+			t += "/" + c.E4Feat
+		}
+		return t
+	}
 	return fmt.Sprintf("fat%d/%d@%d", c.Type, c.Size, c.Start)
+}
+
+func (c fatCfg) ext4Params() *ext4.Params {
+	feats := []ext4.FeatureOpt{ext4.WithFeatureHasJournal(c.E4Journal), ext4.WithFeatureReservedGDTBlocksForExpansion(false)}
+	if c.E4NoCsum {
+		feats = append(feats, ext4.WithFeatureMetadataChecksums(false), ext4.WithFeatureGDTChecksum(false))
+	}
+	feats = append(feats, ext4FeatTag(c.E4Feat)...)
+	u := uuid.MustParse("01234567-89ab-4cde-8f01-23456789abcd")
+	p := &ext4.Params{UUID: &u, SectorsPerBlock: c.E4SectorsPerBlock, Features: feats, Checksum: !c.E4NoCsum, VolumeName: "VERIF"}
+	for _, t := range strings.Split(c.E4Feat, ",") {
+		switch {
+		case t == "ssv2":
+			p.SparseSuperVersion = 2
+		case strings.HasPrefix(t, "bpg="):
+			fmt.Sscanf(t, "bpg=%d", &p.BlocksPerGroup)
+		case strings.HasPrefix(t, "ratio="):
+			fmt.Sscanf(t, "ratio=%d", &p.InodeRatio)
+		case strings.HasPrefix(t, "inodes="):
+			fmt.Sscanf(t, "inodes=%d", &p.InodeCount)
+		}
+	}
+	return p
 }
 
 const fatGuard = 8 << 10
@@ -43,6 +87,8 @@ type tableDumper interface{ VerifTableBytes() []byte }
 func fatCreate(c fatCfg, d *memdev.Dev) (filesystem.FileSystem, error) {
 	b := be(d, false)
 	switch c.Type {
+	case 4:
+		return ext4.Create(b, c.Size, c.Start, 512, c.ext4Params())
 	case 12:
 		return fat12.Create(b, c.Size, c.Start, c.Blocksize, "VERIF", c.Reproducible)
 	case 16:
@@ -54,6 +100,8 @@ func fatCreate(c fatCfg, d *memdev.Dev) (filesystem.FileSystem, error) {
 func fatRead(c fatCfg, d *memdev.Dev, ro bool) (filesystem.FileSystem, error) {
 	b := be(d, ro)
 	switch c.Type {
+	case 4:
+		return ext4.Read(b, c.Size, c.Start, 512)
 	case 12:
 		return fat12.Read(b, c.Size, c.Start, c.Blocksize)
 	case 16:
@@ -66,6 +114,12 @@ func fatClusterBytes(c fatCfg, fs filesystem.FileSystem) int {
 	type bpc interface{ BytesPerCluster() int }
 	if x, ok := fs.(bpc); ok {
 		return x.BytesPerCluster()
+	}
+	if c.Type == 4 {
+		if c.E4SectorsPerBlock == 0 {
+			return 1024
+		}
+		return int(c.E4SectorsPerBlock) * 512
 	}
 	return 512
 }
@@ -90,6 +144,10 @@ func (o fsOp) String() string {
 		return fmt.Sprintf("rename(%s->%s)", o.Path, o.Path2)
 	case "reopen":
 		return "reopen"
+	case "symlink":
+		return fmt.Sprintf("symlink(%s->%s[%d])", o.Path, clip(o.Path2), len(o.Path2))
+	case "chmod", "chown", "chtimes":
+		return fmt.Sprintf("%s(%s,%s)", o.Kind, o.Path, o.Len)
 	}
 	return o.Kind + "(" + o.Path + ")"
 }
@@ -100,6 +158,14 @@ type refNode struct {
 	Dir  bool
 	Data []byte
 	Name string // display spelling
+	Link string // symlink target ("" = not a symlink)
+	// attributes that an accepted call has set (nil = never set, not compared)
+	Mode  *uint32 // permission + setuid/setgid/sticky bits as os.FileMode bits
+	UID   *int64
+	GID   *int64
+	MTime *int64 // unix nanoseconds
+	ATime *int64
+	CTime *int64
 }
 
 type refTree struct {
@@ -162,7 +228,7 @@ func (t *refTree) digest() [32]byte {
 	sort.Strings(ks)
 	for _, k := range ks {
 		n := t.n[k]
-		fmt.Fprintf(h, "%s|%v|%d|", k, n.Dir, len(n.Data))
+		fmt.Fprintf(h, "%s|%v|%d|%s|%s|%s|%s|%s|%s|%s|", k, n.Dir, len(n.Data), n.Link, pv(n.Mode), pv(n.UID), pv(n.GID), pv(n.MTime), pv(n.ATime), pv(n.CTime))
 		h.Write(n.Data)
 	}
 	var o [32]byte
@@ -173,9 +239,18 @@ func (t *refTree) digest() [32]byte {
 func (t *refTree) clone() *refTree {
 	c := newRefTree(t.caseFold)
 	for k, v := range t.n {
-		c.n[k] = &refNode{v.Dir, append([]byte(nil), v.Data...), v.Name}
+		cp := *v
+		cp.Data = append([]byte(nil), v.Data...)
+		c.n[k] = &cp
 	}
 	return c
+}
+
+func pv[T uint32 | int64](p *T) string {
+	if p == nil {
+		return "-"
+	}
+	return fmt.Sprint(*p)
 }
 
 func patternBytes(seed, n int) []byte {
@@ -189,10 +264,22 @@ func patternBytes(seed, n int) []byte {
 // ---- live view ---------------------------------------------------------------------------------------
 
 type viewNode struct {
-	Dir  bool
-	Data []byte
-	Size int64
-	Name string
+	Dir   bool
+	Data  []byte
+	Size  int64
+	Name  string
+	Link  string
+	IsLnk bool
+	Mode  uint32
+	UID   int64
+	GID   int64
+	MTime int64
+	ATime int64
+	CTime int64
+}
+
+type linkReader interface {
+	ReadLink(p string) (string, error)
 }
 
 // fsView walks the filesystem through its public API. chunk is the Read buffer size for file contents.
@@ -221,8 +308,37 @@ func fsView(fs filesystem.FileSystem, caseFold bool, chunk int, limit int) (map[
 				return fmt.Errorf("name %s listed twice in %s", name, dir)
 			}
 			vn := viewNode{Dir: e.IsDir(), Name: name}
-			if fi, err := e.Info(); err == nil {
+			fi, err := e.Info()
+			if err == nil {
 				vn.Size = fi.Size()
+				vn.IsLnk = fi.Mode()&os.ModeSymlink != 0
+			}
+			// attributes are observed through Stat (the entry point the properties name)
+			if !caseFold {
+				if sfi, serr := fs.Stat(p); serr == nil {
+					fi, err = sfi, nil
+				}
+			}
+			if err == nil {
+				vn.Mode = uint32(fi.Mode() & (os.ModePerm | os.ModeSetuid | os.ModeSetgid | os.ModeSticky))
+				vn.MTime = fi.ModTime().UnixNano()
+				vn.IsLnk = vn.IsLnk || fi.Mode()&os.ModeSymlink != 0
+				if st, ok := fi.Sys().(*ext4.StatT); ok && st != nil {
+					vn.UID, vn.GID = int64(st.UID), int64(st.GID)
+					vn.ATime, vn.CTime = st.AccessTime.UnixNano(), st.CreateTime.UnixNano()
+				}
+			}
+			if vn.IsLnk || e.Type()&os.ModeSymlink != 0 {
+				vn.IsLnk = true
+				if lr, ok := fs.(linkReader); ok {
+					tg, err := lr.ReadLink(p)
+					if err != nil {
+						return fmt.Errorf("ReadLink(%s): %w", p, err)
+					}
+					vn.Link = tg
+				}
+				out[k] = vn
+				continue
 			}
 			if e.IsDir() {
 				out[k] = vn
@@ -287,10 +403,31 @@ func compareView(t *refTree, v map[string]viewNode, skip map[string]bool) (claus
 		if !ok {
 			return "missing-entry", fmt.Sprintf("%s exists in the reference tree but is not listed", k)
 		}
-		if g.Dir != m.Dir {
-			return "kind", fmt.Sprintf("%s: directory=%v, reference says %v", k, g.Dir, m.Dir)
+		if g.Dir != m.Dir || g.IsLnk != (m.Link != "") {
+			return "kind", fmt.Sprintf("%s: directory=%v symlink=%v, reference says directory=%v symlink=%v", k, g.Dir, g.IsLnk, m.Dir, m.Link != "")
 		}
-		if !m.Dir {
+		if m.Link != "" && g.Link != m.Link {
+			return "link-target", fmt.Sprintf("%s: link target %q (%d bytes), reference %q (%d bytes)", k, clip(g.Link), len(g.Link), clip(m.Link), len(m.Link))
+		}
+		if m.Mode != nil && g.Mode != *m.Mode {
+			return "attr-mode", fmt.Sprintf("%s: mode %o, reference %o", k, g.Mode, *m.Mode)
+		}
+		if m.UID != nil && g.UID != *m.UID {
+			return "attr-uid", fmt.Sprintf("%s: uid %d, reference %d", k, g.UID, *m.UID)
+		}
+		if m.GID != nil && g.GID != *m.GID {
+			return "attr-gid", fmt.Sprintf("%s: gid %d, reference %d", k, g.GID, *m.GID)
+		}
+		if m.MTime != nil && g.MTime != *m.MTime {
+			return "attr-mtime", fmt.Sprintf("%s: mtime %d, reference %d", k, g.MTime, *m.MTime)
+		}
+		if m.ATime != nil && g.ATime != *m.ATime {
+			return "attr-atime", fmt.Sprintf("%s: atime %d, reference %d", k, g.ATime, *m.ATime)
+		}
+		if m.CTime != nil && g.CTime != *m.CTime {
+			return "attr-ctime", fmt.Sprintf("%s: creation time %d, reference %d", k, g.CTime, *m.CTime)
+		}
+		if !m.Dir && m.Link == "" {
 			if g.Size != int64(len(m.Data)) {
 				return "size", fmt.Sprintf("%s: listed size %d, reference %d", k, g.Size, len(m.Data))
 			}
@@ -313,6 +450,13 @@ func compareView(t *refTree, v map[string]viewNode, skip map[string]bool) (claus
 		}
 	}
 	return "", ""
+}
+
+func clip(s string) string {
+	if len(s) > 24 {
+		return s[:24] + "..."
+	}
+	return s
 }
 
 // ---- the system under exploration ---------------------------------------------------------------------
@@ -349,7 +493,7 @@ func newFatSys(c fatCfg, oracle string) (*fatSys, error) {
 	}
 	d.Poke(g, c.Start+c.Size)
 	d.Allowed = []memdev.Range{{Lo: c.Start, Hi: c.Start + c.Size}}
-	s := &fatSys{cfg: c, dev: d, model: newRefTree(true), oracle: oracle}
+	s := &fatSys{cfg: c, dev: d, model: newRefTree(c.Type != 4), oracle: oracle}
 	var err error
 	if pm := guard(func() { s.fs, err = fatCreate(c, d) }); pm != "" {
 		return nil, errors.New(pm)
@@ -359,6 +503,20 @@ func newFatSys(c fatCfg, oracle string) (*fatSys, error) {
 	}
 	s.cb = fatClusterBytes(c, s.fs)
 	s.capB = c.Size
+	if c.Type == 4 {
+		// what Create itself puts into the tree (lost+found) is part of the initial reference tree
+		var v map[string]viewNode
+		var verr error
+		if pm := guard(func() { v, verr = fsView(s.fs, false, 4096, 1<<25) }); pm != "" {
+			return nil, errors.New(pm)
+		}
+		if verr != nil {
+			return nil, verr
+		}
+		for k, vn := range v {
+			s.model.n[k] = &refNode{Dir: vn.Dir, Data: vn.Data, Name: vn.Name, Link: vn.Link}
+		}
+	}
 	return s, nil
 }
 
@@ -379,6 +537,8 @@ func (s *fatSys) resolveLen(l string, cur int) int {
 		return int(s.capB * 70 / 100)
 	case "p15":
 		return int(s.capB * 15 / 100)
+	case "5c":
+		return 5 * c
 	}
 	var n int
 	fmt.Sscanf(l, "%d", &n)
@@ -594,6 +754,110 @@ func (s *fatSys) apply(op fsOp) (err error, viols []explore.Viol) {
 			}
 			delete(m.n, m.key(op.Path))
 		}
+	case "symlink":
+		// Path = link name, Path2 = target
+		pm := guard(func() { err = s.fs.Symlink(op.Path2, op.Path) })
+		if pm != "" {
+			add("symlink|"+pm, pm)
+			return errors.New(pm), viols
+		}
+		if err == nil {
+			if m.get(op.Path) != nil {
+				add("symlink|accepted-over-existing", fmt.Sprintf("%s succeeded although the name exists", op))
+				return nil, viols
+			}
+			if !m.parentOK(op.Path) {
+				add("symlink|accepted-impossible", fmt.Sprintf("%s succeeded although the parent directory does not exist", op))
+				return nil, viols
+			}
+			m.n[m.key(op.Path)] = &refNode{Name: baseName(op.Path), Link: op.Path2}
+		}
+	case "chmod", "chown", "chtimes":
+		n := m.get(op.Path)
+		var mode uint32
+		var uid, gid int64
+		var tsec int64
+		fmt.Sscanf(op.Len, "%o", &mode)
+		if op.Kind == "chown" {
+			fmt.Sscanf(op.Len, "%d:%d", &uid, &gid)
+		}
+		if op.Kind == "chtimes" {
+			fmt.Sscanf(op.Len, "%d", &tsec)
+		}
+		fm := os.FileMode(mode & 0o777)
+		if mode&0o4000 != 0 {
+			fm |= os.ModeSetuid
+		}
+		if mode&0o2000 != 0 {
+			fm |= os.ModeSetgid
+		}
+		if mode&0o1000 != 0 {
+			fm |= os.ModeSticky
+		}
+		ct, at, mt := time.Unix(tsec, 0).UTC(), time.Unix(tsec+3600, 500).UTC(), time.Unix(tsec+7200, 999999999).UTC()
+		pm := guard(func() {
+			switch op.Kind {
+			case "chmod":
+				err = s.fs.Chmod(op.Path, fm)
+			case "chown":
+				err = s.fs.Chown(op.Path, int(uid), int(gid))
+			default:
+				err = s.fs.Chtimes(op.Path, ct, at, mt)
+			}
+		})
+		if pm != "" {
+			add(op.Kind+"|"+pm, pm)
+			return errors.New(pm), viols
+		}
+		if err == nil {
+			if n == nil {
+				add(op.Kind+"|accepted-impossible", fmt.Sprintf("%s succeeded although nothing has that name", op))
+				return nil, viols
+			}
+			if n.Link != "" {
+				// attribute calls follow symbolic links (documented); the alphabets only link to existing names or nothing
+				if t := m.get(n.Link); t != nil {
+					n = t
+				} else {
+					return nil, viols
+				}
+			}
+			switch op.Kind {
+			case "chmod":
+				v := uint32(fm)
+				n.Mode = &v
+			case "chown":
+				if uid != -1 {
+					u := uid
+					n.UID = &u
+				}
+				if gid != -1 {
+					g := gid
+					n.GID = &g
+				}
+			default:
+				a, b, c := mt.UnixNano(), at.UnixNano(), ct.UnixNano()
+				n.MTime, n.ATime, n.CTime = &a, &b, &c
+			}
+		}
+	case "fillsmall", "filldirs":
+		// create numbered small files (or directories) until the filesystem refuses; the refusal is the expected end
+		for i := 0; i < 20000; i++ {
+			name := fmt.Sprintf("%s%04d", op.Path, i)
+			var e error
+			if op.Kind == "fillsmall" {
+				e, _ = s.apply(fsOp{Kind: "write", Path: name, Off: "0", Len: "c+1"})
+			} else {
+				e, _ = s.apply(fsOp{Kind: "mkdir", Path: name})
+			}
+			if e != nil {
+				if live, verr := fsView(s.fs, s.model.caseFold, 4096, 1<<25); verr == nil {
+					s.resync(live, name)
+				}
+				break
+			}
+		}
+		return nil, viols
 	case "readpartial":
 		// a read that ends inside a cluster followed by reads to the end (read-only; judged by C01 only)
 		n := m.get(op.Path)
@@ -662,7 +926,7 @@ func (s *fatSys) resync(v map[string]viewNode, paths ...string) {
 		}
 		for vk, vn := range v {
 			if vk == k || strings.HasPrefix(vk, k+"/") {
-				m.n[vk] = &refNode{Dir: vn.Dir, Data: append([]byte(nil), vn.Data...), Name: vn.Name}
+				m.n[vk] = &refNode{Dir: vn.Dir, Data: append([]byte(nil), vn.Data...), Name: vn.Name, Link: vn.Link}
 			}
 		}
 	}
@@ -699,6 +963,9 @@ func (s *fatSys) key() [32]byte {
 	}
 	if td, ok := s.fs.(tableDumper); ok {
 		h.Write(td.VerifTableBytes())
+	}
+	if sd, ok := s.fs.(interface{ VerifStateBytes() []byte }); ok {
+		h.Write(sd.VerifStateBytes())
 	}
 	md := s.model.digest()
 	h.Write(md[:])
